@@ -875,6 +875,51 @@ fn agree_pair(prog: &Prog, st: &mut Stats, seed: u64, b: Budget, out_fail: &mut 
 // main entry
 // ------------------------------------------------------------------------------------------
 
+/// plan number `pi` (0..3) of the stub-fidelity cross-check: shared by the simulated side (`names`
+/// command) and the real side (fid/fidrt), so that both execute the same inputs
+pub fn fidelity_plan(prog: &Prog, ki: usize, pi: u64) -> Plan {
+    let mut plan = Plan::default();
+    let mut rng = Rng::new(hash_all(&[prog.id as u64, ki as u64, pi]));
+    if pi > 0 {
+        plan.input_seed = rng.next() | 1;
+        plan.salt = rng.next();
+    }
+    if pi == 2 {
+        let r0 = run_reference(prog, &plan);
+        let pos = plans::failable_positions(prog, &r0);
+        if !pos.is_empty() {
+            plan.fail.insert(*rng.pick(&pos));
+        }
+    }
+    plan
+}
+
+/// names of the threads that evaluated user code, per (program, thread-spawning kind, fidelity plan)
+fn names_cmd(progs: &[&'static Prog]) {
+    for prog in progs {
+        for (ki, &(kind, _)) in prog.runs.iter().enumerate() {
+            if !(kind.is_spawn() && !kind.is_async()) {
+                continue;
+            }
+            for pi in 0..3u64 {
+                let plan = fidelity_plan(prog, ki, pi);
+                let sim = run_sim(prog, kind, &plan, Strat::ParentFirst, 1, None);
+                let mut names: Vec<String> = Vec::new();
+                for r in sim.log.iter().filter(|r| r.ph == Ph::Pass) {
+                    if let Some(t) = sim.threads.get(r.ent as usize) {
+                        let n = t.name.clone().unwrap_or_default();
+                        if !names.contains(&n) {
+                            names.push(n);
+                        }
+                    }
+                }
+                names.sort();
+                println!("{}", json!({"type": "names", "program": prog.id, "kind": kind.name(), "pi": pi, "names": names, "outcome": sim.outcome.short()}));
+            }
+        }
+    }
+}
+
 fn arg<'a>(args: &'a [String], name: &str) -> Option<&'a str> {
     args.iter().position(|a| a == name).and_then(|i| args.get(i + 1)).map(|s| s.as_str())
 }
@@ -890,6 +935,7 @@ pub fn main_entry(progs: &[&'static Prog]) {
             }
         }
         "run" => run_cmd(progs, &args),
+        "names" => names_cmd(progs),
         "replay" => replay_cmd(progs, &args),
         _ => {
             eprintln!("usage: <bin> list | run --check Cxx --tier quick|thorough --seed N --shard i/n | replay --file F");
